@@ -3,6 +3,8 @@
 Not urwid code and never claimed as verified: each function exercises builtins / operators the real
 functions under contract rely on.  pyvc/xcheck.py samples concrete inputs, runs the function in CPython and
 symbolically (inputs equated to the constants) and demands identical results."""
+import typing
+
 
 
 def x_floordiv_mod(a: int, b: int):
@@ -144,3 +146,27 @@ def x_seq_eq(xs: list, ys: list, k: int):
     # == between two lists / two tuples / a list and a tuple (pyvc interp._seq_equals; Signals.disconnect compares
     # the stored (weak_args, user_args) tuples with freshly built ones)
     return (xs == ys, tuple(xs) == tuple(ys), xs == tuple(ys), tuple(xs) == ys, xs[:k] == ys[:k], tuple(xs[:k]) == tuple(ys[:k]))
+class _XPair(typing.NamedTuple):
+    first: int
+    second: int = 5
+
+
+class _XBox(typing.NamedTuple):
+    trim: int
+    pair: _XPair
+    items: list
+
+
+def x_namedtuple(a: int, b: int, items: list):
+    """typing.NamedTuple constructors (positional, keyword, default), unpacking, indexing, field access, len,
+    equality with a plain tuple, a list stored as a component and mutated afterwards (model: builtins_model.NTuple)."""
+    p = _XPair(a, b)
+    q = _XPair(second=a, first=b)
+    d = _XPair(a)
+    box = _XBox(a - b, p, items)
+    items.append(b)
+    trim, (f, s), its = box
+    r = 0
+    for x in box.items:
+        r += x
+    return (p[0], p.second, q.first, q[1], d.second, len(box), trim, f + s, r, p == (a, b), box.pair.first, its is items, len(its))
